@@ -61,6 +61,7 @@ type Config struct {
 	PCTLen   int // estimated length for change points
 	TickBias int // 1 in TickBias choices prefers a tick when available (0 = uniform)
 	TickHold bool // no tick fires before the harness calls AllowTicks()
+	Stick    int  // strategy "sticky": probability (percent) of continuing with the same goroutine
 	Mem      bool // log plain memory accesses (M lines) and harness synchronisation (H lines)
 	NoTrace  bool
 	FailFast bool
@@ -79,6 +80,7 @@ type Result struct {
 }
 
 type Sched struct {
+	last int
 	memKeep []unsafe.Pointer
 	ticksOn bool
 	cfg     Config
@@ -268,6 +270,23 @@ func (s *Sched) pick(en []*G, ts []*Ticker) int {
 			return -(ts[s.rng.Intn(len(ts))].idx + 1)
 		}
 		return s.pctBest(en).id
+	case "sticky":
+		// random with inertia: keep running the goroutine that ran last with probability Stick/100 (runs of
+		// geometric length), otherwise choose uniformly: reaches interleavings that need one goroutine to
+		// make many steps while another is parked between two of its own
+		if len(ts) > 0 && (len(en) == 0 || (s.cfg.TickBias > 0 && s.rng.Intn(s.cfg.TickBias*4) == 0)) {
+			return -(ts[s.rng.Intn(len(ts))].idx + 1)
+		}
+		if s.last >= 0 && s.rng.Intn(100) < s.cfg.Stick {
+			for _, g := range en {
+				if g.id == s.last {
+					return g.id
+				}
+			}
+		}
+		c := en[s.rng.Intn(len(en))].id
+		s.last = c
+		return c
 	default:
 		if len(ts) > 0 && s.cfg.TickBias > 0 && len(en) > 0 {
 			if s.rng.Intn(s.cfg.TickBias) == 0 {
